@@ -1,5 +1,6 @@
 """Per-property specifications: generators, projections, shrinkers, evidence texts."""
 import os
+from . import xcheck
 from . import build, gen_codec, gen_rope, gen_tree, gen_hist, gen_json, gen_sched
 from .common import Case
 
@@ -209,6 +210,17 @@ def shrink_wr(obj):
         yield {'t': obj['t'], 'cap': obj['cap'] - 1, 'short': obj['short']}
 def gen_c07(rng, tier):
     out = gen_c01(rng, tier)
+    for i in range(300 if tier == 'quick' else 8000):
+        g = gen_tree.Gen(rng, gen_tree.Cfg(ascii=False, bufs=1.0, invalid_utf8=0.7, sms=0.0))
+        leaf = (rng.choice(['rawb', 'rbuf']), g.leaf()[1] if False else bytes(rng.choice([0x61, 0x0a, 0xc3, 0xa9, 0xff, 0xc0, 0xe2, 0x82, 0xf0, 0x9f]) for _ in range(rng.randrange(0, 7))))
+        inner = leaf if rng.random() < 0.6 else ('concat', 'new', [(False, leaf), (False, ('raws', g.text(4)))])
+        rs = [] if rng.random() < 0.5 else g.replacements(gen_tree.text_of(inner))[:2]
+        t = ('repl', inner, rs)
+        if rng.random() < 0.3:
+            t = ('concat', 'new', [(False, t), (False, ('raws', 'z'))])
+        if rng.random() < 0.2:
+            t = ('cached', 1, t)
+        out.append(Case('tree', {'t': t, 'warm': []}, {'nontrivial', 'replace_over_binary_leaf'} | gen_tree.kinds_of(t, set())))
     nw = 300 if tier == 'quick' else 5000
     cfgs = [gen_tree.Cfg(ascii=True), gen_tree.Cfg(ascii=False, bufs=0.2, invalid_utf8=0.3)]
     for i in range(nw):
@@ -301,6 +313,8 @@ def gen_c14(rng, tier):
         out.append(gen_hist.gen_edit_pair(rng, cf[i % len(cf)]))
         if i % 2 == 0:
             out.append(gen_hist.gen_thist_case(rng, cf[i % len(cf)]))
+        if i % 4 == 1:
+            out.append(gen_hist.gen_hash_equal_pair(rng, cf[i % 4]))
     return out
 
 C14 = Spec('C14',
@@ -314,7 +328,9 @@ C14 = Spec('C14',
 def gen_c20(rng, tier):
     n = 2500 if tier == 'quick' else 100000
     cf = cfgs_hist() + [gen_tree.Cfg(ascii=False, bufs=0.2, invalid_utf8=0.3, warm=0.0)]
-    return [gen_hist.gen_edit_pair(rng, cf[i % len(cf)]) for i in range(n)]
+    out = [gen_hist.gen_edit_pair(rng, cf[i % len(cf)]) for i in range(n)]
+    out += [gen_hist.gen_hash_equal_pair(rng, cf[i % 4]) for i in range(n // 8)]
+    return out
 
 C20 = Spec('C20',
     kinds={'pair': {'ser': gen_hist.ser_pair, 'proj': None, 'shrink': gen_hist.shrink_pair}},
@@ -474,6 +490,9 @@ C18 = Spec('C18',
     rule='2-3 threads with 1-3 operations each over a shared ReplaceSource (observers that sort lazily, clone; cold, sorted or stale index) or a shared CachedSource and clones of it (map and stream in all option sets); random schedules at the granularity of the schedule points before each shared-state access, plus all interleavings of small programs (observer vs clone on a stale index; map vs stream on a cold cache)',
     explanation='Sem/Conc.v is an interleaving semantics with one step per shared-state access; the harness executes the same schedule on real threads parked at the hook-H3 schedule points and the per-thread site traces, all results, the final flag/index and the storage identity of every cache entry after every step are compared with the model; chk_C18_* : every result equals the sequential answer, every clone satisfies the object invariant, cache entries are write-once',
     checker_name='ApiSched.chk_C18_replace / chk_C18_cached', model_name='Sem/Conc.v')
+
+C12.xcheck = xcheck.codec_crosscheck
+C17.xcheck = None
 
 REGISTRY = {'C18': C18, 'C19': C19, 'C17': C17, 'C15': C15, 'C09': C09, 'C06': C06, 'C04': C04, 'C12': C12, 'C16': C16, 'C01': C01, 'C05': C05, 'C10': C10, 'C13': C13, 'C14': C14, 'C20': C20, 'C02': C02, 'C03': C03, 'C07': C07, 'C08': C08, 'C11': C11}
 
